@@ -221,6 +221,55 @@ def run(ctx):
     literals(ctx)
     negation(ctx)
     init_next(ctx)
+    name_table(ctx)
+
+
+def name_table(ctx):
+    """R08.6: symbols are hash-consed by name and type, so two lines that get the same name become the same signal.  The reader keeps the set of
+    names in use; a name may enter that set only through the helper that first probes it for membership (who-may-write)."""
+    ctx.rule("R08.6", "the reader's set of names in use is written only by the probing helper (a loop on `contains` before the insert); every other function reaches it through that helper")
+    c = ctx.facts.lib("patronus")
+    table_fields = set()
+    probing = {}
+    for path, fl in c.raw_fns.items():
+        if not path.startswith(MOD) or "::tests::" in path:
+            continue
+        f = fl[0]
+        # a helper that inserts into a set parameter only after a `while used.contains(..)` probe of the same set
+        for p_ in f.get("params", []):
+            b_ = binding_of_pat(p_)
+            if not b_ or "HashSet<" not in str(p_.get("ty", "")):
+                continue
+            ins = [x for x in walk(f["body"]) if x.get("k") == "mcall" and x["name"] == "insert" and is_local(x["recv"], b_[1])]
+            probes = [x for x in walk(f["body"]) if x.get("k") == "while" and any(y.get("k") == "mcall" and y["name"] == "contains" and is_local(y["recv"], b_[1]) for y in walk(x["cond"]))]
+            if ins and probes:
+                probing[path] = [i_ for i_, q in enumerate(f["params"]) if q is p_][0]
+    writes, through = [], 0
+    for path, fl in sorted(c.raw_fns.items()):
+        if not path.startswith(MOD) or "::tests::" in path:
+            continue
+        f = fl[0]
+        for x in walk(f["body"]):
+            if x.get("k") == "call" and callee(x) in probing:
+                a_ = x["args"][probing[callee(x)]] if probing[callee(x)] < len(x["args"]) else {}
+                fp = field_path(a_)
+                if fp and fp[0] == "self" and len(fp[2]) == 1:
+                    table_fields.add(fp[2][0])
+                    through += 1
+    for path, fl in sorted(c.raw_fns.items()):
+        if not path.startswith(MOD) or "::tests::" in path or path in probing:
+            continue
+        f = fl[0]
+        for x in walk(f["body"]):
+            if x.get("k") == "mcall" and x["name"] in ("insert", "extend", "remove", "clear", "retain", "take"):
+                fp = field_path(x["recv"])
+                if fp and fp[0] == "self" and len(fp[2]) == 1 and fp[2][0] in table_fields:
+                    writes.append((path, x))
+    ctx.inst("R08.6", "names-in-use:written-through-the-probe-only", not writes, writes[0][1]["sp"] if writes else None,
+             "%s writes the set of names in use directly (`%s`) instead of through %s: a generated name that is already taken is handed out again, and since symbols are hash-consed by name and type the two lines become one signal" % (
+                 writes[0][0] if writes else "", show(writes[0][1])[:60] if writes else "", sorted(x_.split("::")[-1] for x_ in probing)),
+             sample={"table": sorted(table_fields), "probing helpers": sorted(probing), "calls through the helper": through})
+    ctx.floor("R08.6", "calls of the probing name helper on the reader's name table", through, 1)
 
 
 def r085(ctx, f, fname, m):
